@@ -275,7 +275,7 @@ class PathState:
             via_otherwise = (t['otherwise'] == next_block)
             ds = strip(d)
             key = repr(ds[1]) if (ds[0] == 'discr' and _pure_place(ds[1])) else None
-            if key is None and _pure_place(ds) and t.get('discr_ty') == 'bool':
+            if key is None and _pure_expr(ds) and t.get('discr_ty') == 'bool':
                 key = 'bool:' + repr(ds)     # a boolean parameter / field of a parameter tested again on the same path
             prev = self.discr_facts.get(key) if key else None
             known = self.known_discr(d)
@@ -320,6 +320,21 @@ def _pure_place(e, depth=0):
     if e[0] in ('field', 'variant', 'deref', 'ref', 'refm'):
         return _pure_place(e[1], depth + 1)
     return False
+
+
+def _pure_expr(e, depth=0):
+    """a value computed from parameters and constants only (the same expression tested twice on a path has the same truth value)"""
+    if depth > 20 or not isinstance(e, tuple):
+        return False
+    if e[0] == 'const':
+        return True
+    if e[0] == 'bin':
+        return _pure_expr(e[2], depth + 1) and _pure_expr(e[3], depth + 1)
+    if e[0] in ('un',):
+        return _pure_expr(e[2], depth + 1)
+    if e[0] == 'cast':
+        return _pure_expr(e[1], depth + 1)
+    return _pure_place(e, depth)
 
 
 _PROM_CACHE = {}
